@@ -1158,6 +1158,13 @@ impl<T: ArrayValue> Array<T> {
         }
         let chunk_size = row_shape.iter().product();
         if chunk_size == 0 {
+            // Rows without elements are still rows: a map's keys follow them
+            if depth == 0
+                && let Some(meta) = self.meta.get_mut()
+                && let Some(keys) = &mut meta.map_keys
+            {
+                keys.reverse();
+            }
             return;
         }
         let sorted_up = self.meta.is_sorted_up();
